@@ -144,7 +144,9 @@ class C19(Prop):
                 "recv_raises": t.draw(8) == 0,
                 "shape": t.choice([None] * 9 + ["str-enum", "proxy", "chainmap"]),
                 # (ASGI) loop iterations take (virtual) time: timers may fall due between callbacks of one instant
-                "tick": t.draw(2) == 0}
+                "tick": t.draw(2) == 0,
+                # the request method (fetch-style clients POST to an event stream)
+                "method": t.choice(["GET", "GET", "GET", "POST"])}
         if surface == "wsgi-sse":
             plan["preempt"] = t.choice([(0, 1), (1, 20), (1, 5)])
             plan["cdelays"] = [t.choice((0.0, 0.0, 0.001, P / 2, P + 0.001)) for _ in range(6)]
@@ -207,7 +209,7 @@ class C19(Prop):
                 def __aiter__(self):
                     return gen()
 
-            peer = AsgiHttpPeer(loop, ctx, ctx.sched, AbstractRequest("GET", "/"), send_lats=lats, surface="asgi-sse", recv_raises_after_script=plan.get("recv_raises", False))
+            peer = AsgiHttpPeer(loop, ctx, ctx.sched, AbstractRequest(plan.get("method", "GET"), "/"), send_lats=lats, surface="asgi-sse", recv_raises_after_script=plan.get("recv_raises", False))
             r = SendEventResponse(Feed() if plan.get("reuse") else gen(), ping_interval=P, charset=plan["charset"])
             exc = None
 
@@ -227,7 +229,7 @@ class C19(Prop):
                 if plan.get("reuse"):
                     ctx.probe("response_object_reused")
                     first = b"".join(peer.body_chunks)
-                    peer = AsgiHttpPeer(loop, ctx, ctx.sched, AbstractRequest("GET", "/"), send_lats=lats, surface="asgi-sse", recv_raises_after_script=plan.get("recv_raises", False))
+                    peer = AsgiHttpPeer(loop, ctx, ctx.sched, AbstractRequest(plan.get("method", "GET"), "/"), send_lats=lats, surface="asgi-sse", recv_raises_after_script=plan.get("recv_raises", False))
                     await call(peer)
                     second = b"".join(peer.body_chunks)
                     if first.replace(b": ping\n\n", b"") != second.replace(b": ping\n\n", b""):
@@ -267,7 +269,7 @@ class C19(Prop):
                 if plan["end_delay"]:
                     _t.sleep(plan["end_delay"])
 
-            peer = WsgiPeer(ctx, ctx.sched, AbstractRequest("GET", "/"), surface="wsgi-sse")
+            peer = WsgiPeer(ctx, ctx.sched, AbstractRequest(plan.get("method", "GET"), "/"), surface="wsgi-sse")
 
             def on_item(p, item):
                 d = plan["cdelays"][(p.n_items - 1) % len(plan["cdelays"])]
@@ -284,7 +286,7 @@ class C19(Prop):
                 resp = SendEventResponse(Feed() if plan.get("reuse") else gen(), ping_interval=P, charset=plan["charset"])
                 if plan.get("reuse"):
                     ctx.probe("response_object_reused")
-                    p0 = WsgiPeer(ctx, ctx.sched, AbstractRequest("GET", "/"), surface="wsgi-sse")
+                    p0 = WsgiPeer(ctx, ctx.sched, AbstractRequest(plan.get("method", "GET"), "/"), surface="wsgi-sse")
                     p0.run(resp)
                     reuse_out["first"] = p0.body
                 peer.run(resp, on_item=on_item)
